@@ -1,12 +1,18 @@
 /-
 C03 — predicted pictures equal motion-compensated reference plus residual.  Property theorems only.
-(PARTIAL: sample-level and vector-level rules are proved; the picture-level statement is carried by
-the correspondence runs over generated P pictures on high-entropy references.)
+
+Picture level (Sorenson Spark streams): `predicted_picture_round_trip` — the decoder commits exactly the bit-free semantics of
+the picture description: per macroblock the vector predicted from the stored neighbour vectors (zero for intra and not-coded
+neighbours, `non_inter_stores_zero_vector`) plus the differential, the residual blocks dequantised and placed, then motion
+compensation *from the decoder's reference picture* (`s.getRef`) and the inverse transforms on top of it.  The sample-level and
+vector-level rules inside those steps are the theorems below and C12.  Standard-H.263 headers, truncated pictures (missing
+macroblocks = not coded) and extended vector ranges are carried by the correspondence runs.
 -/
 import H263V.Model.State
 import H263V.Spec.Recon
 import H263V.Lemmas.VlcTables
 import H263V.Thm.C12
+import H263V.Lemmas.SorensonPicture
 namespace H263V.Thm.C03
 open H263V H263V.Gather H263V.Mv H263V.Spec.Vlc
 
@@ -81,5 +87,41 @@ theorem no_reference_rejected (types : Array MbType) (mvs : Array Mv4) (mbPerLin
   rw [hn, List.range_succ_eq_map, List.foldlM_cons]
   have h0' : (types[0]?.getD MbType.inter).isInter = true := by simpa [Array.getD_eq_getD_getElem?] using h0
   simp [h0']
+
+
+open H263V.State H263V.Lemmas.SorensonPicture H263V.Lemmas.PictureRoundTrip in
+/-- **Predicted pictures.**  For a valid P or disposable-P picture description: the decoder commits the picture the bit-free
+semantics computes from the description and the decoder's current reference picture, and consumes exactly the picture's bits. -/
+theorem predicted_picture_round_trip (s : State) (hs : s.opts.sorenson = true) (hr : s.running = 0) (p : SPic) (w h : Nat)
+    (hv : p.Valid s.opts w h) (_hp : p.hdr.picType = 1 ∨ p.hdr.picType = 2) (rest : Bits) (pos : Nat) :
+    decodeNextPicture s ⟨p.bits ++ rest, pos⟩ =
+      semCore s (Spec.HeaderSpec.sorensonPicture p.hdr) p.mbs >>= fun r => .ok (commitPic s r.1 r.2, ⟨rest, pos + p.bits.length⟩) :=
+  decode_spic s hs hr p w h hv rest pos
+
+open H263V.State H263V.Lemmas.PictureRoundTrip H263V.Spec.Syntax in
+/-- Not-coded macroblocks and intra macroblocks store zero vectors, so they contribute zero candidates to their neighbours'
+predictors (the loop invariant behind C12's candidate rule). -/
+theorem non_inter_stores_zero_vector (hdr : PicHdr) (dims : Option (Nat × Nat)) (running w : Nat) (l l' : Loop) (m : MbD)
+    (hm : match m.kind with | .notCoded => True | .coded t _ _ _ _ => t.isInter = false)
+    (h : semMb hdr dims running w l m = .ok l') : l'.mvs = l.mvs.push zeroMv4 := by
+  unfold semMb at h
+  cases hk : m.kind with
+  | notCoded =>
+    rw [hk] at h
+    simp only at h
+    split at h
+    · simp at h
+    · simp only [Out.ok.injEq] at h; rw [← h]
+  | coded t dq mvd mvd234 blocks =>
+    rw [hk] at h hm
+    simp only at h hm
+    unfold codedMbSem at h
+    simp only [hm, Bool.false_eq_true, ↓reduceIte, bind, Out.bind] at h
+    repeat' split at h
+    all_goals (try (simp at h; done))
+    all_goals
+      simp only [pure, Out.ok.injEq] at *
+      subst_vars
+      rfl
 
 end H263V.Thm.C03
